@@ -329,7 +329,10 @@ func runC01(c *Ctx) {
 		c.Law(!pan, "C01/helper-panic", "the EvaluateAs* helpers return a value or an error", src, msg)
 	}
 	// ---- (f) patch operations
-	paths := []string{"Patient", "Patient.name", "Patient.name[0]", "Patient.name.given", "Patient.name[0].given[1]", "Patient.active", "Patient.active.value", "Patient.birthDate", "Patient.nosuch", "Patient.name.where(family = 'Smith')", "Patient.extension[0].value", "Patient.id", "1 + 1", "{}", "Patient.name.given.first()", "Patient.name.count()"}
+	paths := []string{"Patient", "Patient.name", "Patient.name[0]", "Patient.name.given", "Patient.name[0].given[1]", "Patient.active", "Patient.active.value", "Patient.birthDate", "Patient.nosuch", "Patient.name.where(family = 'Smith')", "Patient.extension[0].value", "Patient.id", "1 + 1", "{}", "Patient.name.given.first()", "Patient.name.count()",
+		// paths that go on for several steps after a step that found nothing
+		"Patient.contact.name.family", "Patient.contact.name.given.first()", "Patient.name.where(use = 'official').given.first()", "Patient.link.other.reference", "Patient.contact.address.line[0]",
+		"Patient.contact.telecom.where(system = 'phone').value", "Patient.managingOrganization.identifier.assigner.display", "Patient.name.where(false).given.where(true).first()", "Patient.photo.data.value", "Patient.nosuch.name.family"}
 	values := []fhir.Base{&dtpb.HumanName{Family: fhir.String("N")}, fhir.String("s"), fhir.Integer(-1), fhir.Boolean(true), fhir.Code("male"), &dtpb.Decimal{Value: "1.5"}, &dtpb.Quantity{}, nil, fhir.Date(timeDate(2020, 1, 1, 0, 0, 0, 0, "UTC"))}
 	for _, p := range paths {
 		for _, v := range values {
